@@ -190,3 +190,59 @@ def strip_widen(t):
 
 def const_value(t):
     return t[1] if sym.is_c(t) and isinstance(t[1], int) else None
+
+
+def first_case(t):
+    """first cases/ite node found in a term (depth-first), or None"""
+    if not isinstance(t, tuple) or not t:
+        return None
+    if t[0] in ("cases", "ite"):
+        return t
+    for x in t[1:]:
+        if isinstance(x, tuple):
+            r = first_case(x)
+            if r is not None:
+                return r
+    return None
+
+
+def split_cases(vals, conds=(), limit=64):
+    """[(path conditions, {local: case-free value})]: splits jointly on every case distinction occurring anywhere in
+    the values, so that each result is a plain (branch-free) term per tracked local"""
+    node = None
+    for v in vals.values():
+        node = first_case(v)
+        if node is not None:
+            break
+    if node is None:
+        return [(conds, vals)]
+    if limit <= 0:
+        raise sym.Undecided("too many joint cases")
+    out = []
+    if node[0] == "ite":
+        for truth in (True, False):
+            sub = {node[1]: sym.TRUE if truth else sym.FALSE}
+            v2 = {l: sym.rebuild(v, sub) for l, v in vals.items()}
+            out += split_cases(v2, conds + ((node[1], truth),), limit - 1)
+    else:
+        for rs, _x in node[3]:
+            known = {node[1]: rs}
+            v2 = {l: sym.rebuild(v, {}, known) for l, v in vals.items()}
+            out += split_cases(v2, conds + ((node[1], node[2], rs),), limit - 1)
+    return out
+
+
+def exit_value(prog, fn, lp, models=None):
+    """value returned by the function when the loop is left through its normal exit, as a term over the loop-carried
+    atoms L<i> (inner/outer loops summarised)"""
+    ev = sym.Evaluator(prog, models=models, opaque_local=OPAQUE)
+    ev.summarize_loops = True
+    asg = assigned_in(fn, lp["body"])
+    env = {l: v for l, v in lp["entry"].items() if l not in asg}
+    for l in range(len(fn.locals)):
+        if l in asg:
+            env[l] = P("L%d" % l)
+    ne = sym.normal_exit(fn, lp["head"], lp["body"])
+    if ne is None:
+        raise sym.Undecided("loop has no recognisable normal exit")
+    return ev._run(fn, ne, env, {lp["head"]: 1}, 0)
